@@ -24,6 +24,11 @@ impl BytesMut {
         requires at <= old(self)@.len(),
         ensures r@ == old(self)@.take(at as int), final(self)@ == old(self)@.skip(at as int),
     { unimplemented!() }
+    /// BytesMut::take: hands out everything that is buffered and leaves the buffer empty (read off ntex-bytes 1.9 src/bvec.rs)
+    #[verifier::external_body]
+    pub fn take(&mut self) -> (r: Bytes)
+        ensures r@ == old(self)@, final(self)@.len() == 0,
+    { unimplemented!() }
     /// R6 target for `src[i]` (Index<usize>): panics when out of bounds
     #[verifier::external_body]
     pub fn vx_at(&self, i: usize) -> (r: u8)
